@@ -31,6 +31,7 @@ const (
 	EndViolation            // assertion failed / unexpected panic (replay needed)
 	EndInconclusive         // engine limitation, budget, solver unknown
 	EndBlocked              // blocked forever on channel/mutex
+	EndSplit                // enumerator reached the split depth
 )
 
 type Input struct {
@@ -115,6 +116,36 @@ type Explorer struct {
 
 	expectPanic string
 	mapReverse  bool
+
+	// parallel split: an enumerating explorer stops at decision depth
+	// splitDepth and records the prefixes; a worker explorer explores only
+	// below its fixed prefix (base decisions).
+	splitDepth int
+	Prefixes   [][]int64
+	base       int
+}
+
+// SetSplit makes this explorer an enumerator of decision prefixes.
+func (x *Explorer) SetSplit(depth int) { x.splitDepth = depth }
+
+// SetPrefix restricts this explorer to the paths below a decision prefix.
+func (x *Explorer) SetPrefix(p []int64) {
+	x.trail = x.trail[:0]
+	for _, v := range p {
+		x.trail = append(x.trail, decision{val: v, kind: 'p'})
+	}
+	x.base = len(p)
+}
+
+func (x *Explorer) frontier() {
+	if x.splitDepth > 0 && len(x.trail) >= x.splitDepth {
+		p := make([]int64, len(x.trail))
+		for i, d := range x.trail {
+			p[i] = d.val
+		}
+		x.Prefixes = append(x.Prefixes, p)
+		panic(pathAbort{EndSplit, "handed to a worker"})
+	}
 }
 
 func NewExplorer(solverKind string, timeoutMs int) (*Explorer, error) {
@@ -122,6 +153,15 @@ func NewExplorer(solverKind string, timeoutMs int) (*Explorer, error) {
 	if err != nil {
 		return nil, err
 	}
+	return NewExplorerOn(s), nil
+}
+
+// NewExplorerOn creates an explorer on an existing (idle, level 0) solver
+// process, so that workers can reuse one process for many tasks.
+func NewExplorerOn(s *smt.Solver) *Explorer {
+	s.Queries = 0
+	s.Time = 0
+	s.Errors = nil
 	x := &Explorer{ctx: smt.NewCtx(), solver: s}
 	x.Stats.Reached = map[string]int{}
 	x.Stats.Funcs = map[string]int{}
@@ -130,7 +170,7 @@ func NewExplorer(solverKind string, timeoutMs int) (*Explorer, error) {
 	x.MaxPaths = 200000
 	x.MaxInstrs = 20000000
 	x.MaxDepth = 4000
-	return x, nil
+	return x
 }
 
 func (x *Explorer) Close()              { x.solver.Close() }
@@ -167,8 +207,13 @@ func (x *Explorer) endPath() {
 func (x *Explorer) backtrack() bool {
 	// drop decisions beyond what the last run consumed (cannot happen) and
 	// those without alternatives
+	if x.pos < x.base {
+		// the path ended inside the fixed prefix (cannot happen for a
+		// prefix produced by the enumerator)
+		return false
+	}
 	x.trail = x.trail[:x.pos]
-	for len(x.trail) > 0 {
+	for len(x.trail) > x.base {
 		d := &x.trail[len(x.trail)-1]
 		if len(d.alts) > 0 {
 			d.val = d.alts[0]
@@ -225,6 +270,7 @@ func (x *Explorer) decide(cond *smt.Term) bool {
 	if len(x.trail) >= x.MaxDepth {
 		panic(pathAbort{EndInconclusive, "decision depth budget exceeded"})
 	}
+	x.frontier()
 	var side bool
 	haveModel := x.ensureModel()
 	if haveModel {
@@ -279,6 +325,7 @@ func (x *Explorer) choose(n int) int {
 	if len(x.trail) >= x.MaxDepth {
 		panic(pathAbort{EndInconclusive, "decision depth budget exceeded"})
 	}
+	x.frontier()
 	d := decision{kind: 'c', val: 0}
 	for i := 1; i < n; i++ {
 		d.alts = append(d.alts, int64(i))
@@ -303,6 +350,7 @@ func (x *Explorer) concretize(s symInt, what string) int64 {
 		x.modelValid = false
 		return d.val
 	}
+	x.frontier()
 	const limit = 40
 	var vals []int64
 	x.solver.Push()
